@@ -62,6 +62,14 @@ def _dag_case(draw):
             latents = latents + [w]
             edges = edges + [[w, k] for k in sub]
     latents = sorted(latents)
+    if latents and draw(st.integers(0, 5)) == 0:
+        # an observed node that happens to carry the name the library gives to the exogenous copy of a latent with parents
+        obs = [x for x in names if x not in latents]
+        if obs:
+            victim, lat = draw(st.sampled_from(obs)), draw(st.sampled_from(latents))
+            new_name = lat + "_prime"
+            names = [new_name if x == victim else x for x in names]
+            edges = [[new_name if x == victim else x for x in e] for e in edges]
     return {"kind": "dag", "nodes": list(draw(st.permutations(names))), "edges": list(draw(st.permutations(edges))) if edges else [], "latents": latents, "pick": draw(st.integers(0, 2**20))}
 
 
